@@ -210,6 +210,39 @@ def function_inputs(target, seed=0, n=400):
             elif target.endswith('percentage_correct'):
                 d['window'] = rng.choice([0.3, 0.25, 1.0])
             yield d
+    if mod in ('transcription', 'transcription_velocity') and fn in ('precision_recall_f1_overlap', 'onset_precision_recall_f1', 'offset_precision_recall_f1'):
+        # onsets / offsets on a 1/8 s lattice with tolerances that are lattice steps (so strict and non-strict comparison differ on exact ties);
+        # pitches are equal or at least a semitone apart with a 50-cent tolerance (never at the pitch threshold)
+        def nts(k):
+            iv = []
+            for _ in range(k):
+                a = rng.randint(0, 16) * 0.125
+                iv.append([a, a + rng.randint(1, 8) * 0.125])
+            iv.sort()
+            return iv, [440.0 * 2 ** rng.choice([0, 0, 0, 1, -1]) * rng.choice([1.0, 1.0, 1.5]) for _ in range(k)]
+        for _ in range(n):
+            ri, rp = nts(rng.randint(1, 4))
+            if rng.random() < 0.5:
+                ei = [[a + rng.choice([0.0, 0.125, -0.125, 0.25]), b + rng.choice([0.0, 0.125, 0.25, 0.5])] for a, b in ri]
+                ei = [[max(a, 0.0), max(b, max(a, 0.0) + 0.125)] for a, b in ei]
+                ep = list(rp)
+            else:
+                ei, ep = nts(rng.randint(1, 4))
+            d = dict(ref_intervals=ri, est_intervals=ei, strict=rng.random() < 0.6, beta=rng.choice([1.0, 2.0]))
+            if fn != 'offset_precision_recall_f1':
+                d['onset_tolerance'] = rng.choice([0.125, 0.25])
+            if fn != 'onset_precision_recall_f1':
+                d.update(offset_ratio=rng.choice([0.5, 0.25]), offset_min_tolerance=rng.choice([0.125, 0.25]))
+            if fn == 'precision_recall_f1_overlap':
+                d.update(ref_pitches=rp, est_pitches=ep, pitch_tolerance=50.0)
+                if rng.random() < 0.3:
+                    d['offset_ratio'] = None
+                if mod == 'transcription_velocity':
+                    d.update(ref_velocities=[float(rng.choice([10, 50, 100])) for _ in rp], est_velocities=[float(rng.choice([10, 50, 100])) for _ in ep],
+                             velocity_tolerance=rng.choice([0.1, 0.5]))
+            elif mod == 'transcription_velocity':
+                return
+            yield d
     if target == 'util.interpolate_intervals':
         grid = [0.25 * x for x in range(0, 13)]
         for _ in range(n):
